@@ -2,7 +2,7 @@
 # usage: tools/seed_in.sh <prop> <seeded id> [extra checks...]   import an agent's OUT dir, run checks, verify in background
 p=$1; sid=$2; shift 2
 cd /verif
-python3 tools/seeded.py import /tmp/seed/$p/OUT $sid || exit 1
+python3 tools/seeded.py import ${SEEDBASE:-/tmp/seed}/$p/OUT $sid || exit 1
 nohup python3 tools/seeded.py verify $sid > /tmp/seedlogs/verify-$sid.log 2>&1 &
 python3 tools/seeded.py check $sid quick $p "$@"
-git -C /repo worktree remove --force /tmp/seed/$p 2>/dev/null
+git -C /repo worktree remove --force ${SEEDBASE:-/tmp/seed}/$p 2>/dev/null
